@@ -5,6 +5,7 @@ import PQ.Model.SpecWriter
 import PQ.Model.Snappy
 import PQ.Model.Introspect
 import PQ.Model.ParseStruct
+import PQ.Model.Structs
 /-!
 # Line-protocol text ↔ model values (driver glue; not part of any theorem)
 -/
@@ -334,6 +335,13 @@ def parseDecls (s : String) : List Parse.TypeDecl :=
                   tag := if tag = "-" then none else some (String.ofList ((unhex tag).map fun b => Char.ofNat b)) } : Parse.FieldDecl)
         | _ => none
       some { name := name, fields := fs }
+    | _ => none
+
+/-- schema elements text: `name:type:rep:numchildren` separated by `;` (`-` = absent) -/
+def parseSEs (s : String) : List Structs.SE :=
+  (s.splitOn ";").filterMap fun t =>
+    match t.splitOn ":" with
+    | [n, ty, rep, nc] => some { name := n, ty := ty.toNat?, rep := rep.toNat?, nc := nc.toNat? }
     | _ => none
 
 def transpose (n : Nat) (colsRecs : List (List String)) : List String :=
